@@ -52,15 +52,290 @@ theorem dispatch_routes (m : InMsg) (helloReceived : Bool) :
       if kindOf m = 0 ∨ helloReceived = true then ([tokenOf m], false) else ([], true) := by
   cases m <;> cases helloReceived <;> first | rfl | (simp [Gen.dispatch_effects, kindOf, tokenOf]; done) | decide
 
-/-- the model refuses exactly when the translated dispatcher raises, leaving the node as it was -/
+/-! ### which exceptions escape the handlers
+
+To state the dispatcher rule as an equivalence one has to know that no *handler* ever raises the dispatcher's own exception:
+every exception a handler of the model lets escape is a `KeyError`, a validation / range error, or one of the
+`NotImplementedError`s — never `Exception("First message must be Hello")`. -/
+
+/-- the exception of the dispatcher -/
+def firstMustBeHello : Err := .other "First message must be Hello"
+
+/-- `x`, if it raises, raises something else than the dispatcher's exception -/
+def Foreign {α : Type} (x : Except Err α) : Prop := ∀ e, x = .error e → e ≠ firstMustBeHello
+
+namespace Foreign
+
+theorem ok {α : Type} (a : α) : Foreign (.ok a : Except Err α) := by
+  intro e h; cases h
+
+theorem pure {α : Type} (a : α) : Foreign (Pure.pure a : Except Err α) := ok a
+
+theorem err {α : Type} {e : Err} (h : e ≠ firstMustBeHello) : Foreign (.error e : Except Err α) := by
+  intro e' h'; cases h'; exact h
+
+theorem key {α : Type} (s : String) : Foreign (.error (.key s) : Except Err α) :=
+  err (by simp [firstMustBeHello])
+
+theorem throwKey {α : Type} (s : String) : Foreign (throw (.key s) : Except Err α) := key s
+
+theorem verr {α : Type} (s : String) : Foreign (Model.verr s : Except Err α) :=
+  err (by simp [firstMustBeHello])
+
+theorem require (c : Bool) (s : String) : Foreign (Model.require c s) := by
+  unfold Model.require; split
+  · exact ok _
+  · exact err (by simp [firstMustBeHello])
+
+theorem requireRange (c : Bool) : Foreign (Model.requireRange c) := by
+  unfold Model.requireRange; split
+  · exact ok _
+  · exact err (by simp [firstMustBeHello])
+
+theorem bind {α β : Type} {x : Except Err α} {f : α → Except Err β} (hx : Foreign x) (hf : ∀ a, Foreign (f a)) :
+    Foreign (x >>= f) := by
+  intro e h
+  cases x with
+  | error e' =>
+    have : e' = e := by simpa [Bind.bind, Except.bind] using h
+    subst this; exact hx _ rfl
+  | ok a => exact hf a e (by simpa [Bind.bind, Except.bind] using h)
+
+theorem mapM {α β : Type} (f : α → Except Err β) (hf : ∀ a, Foreign (f a)) (l : List α) : Foreign (l.mapM f) := by
+  induction l with
+  | nil => rw [List.mapM_nil]; exact pure _
+  | cons a rest ih =>
+    rw [List.mapM_cons]
+    exact bind (hf a) fun _ => bind ih fun _ => pure _
+
+end Foreign
+
+/-- one step through a `do` block of the model -/
+macro "foreign_step" : tactic => `(tactic| first
+  | exact Foreign.pure _ | exact Foreign.ok _ | exact Foreign.throwKey _ | exact Foreign.key _ | exact Foreign.verr _
+  | exact Foreign.require _ _ | exact Foreign.requireRange _
+  | assumption
+  | (refine Foreign.bind ?_ (fun _ => ?_))
+  | split)
+
+theorem removeInputs_foreign (u : Utxo) (l : List Input) : Foreign (removeInputs u l) := by
+  induction l generalizing u with
+  | nil => exact Foreign.ok _
+  | cons i rest ih =>
+    simp only [removeInputs]
+    split
+    · exact ih _
+    · exact Foreign.key _
+
+theorem utoApplyTx_foreign (C : Crypto) (u : Utxo) (t : CTx) (cb : Bool) : Foreign (utoApplyTx C u t cb) := by
+  unfold utoApplyTx
+  have h := removeInputs_foreign u t.tx.inputs
+  dsimp only
+  repeat' foreign_step
+
+theorem utoApplyTxs_foreign (C : Crypto) (u : Utxo) (l : List CTx) : Foreign (utoApplyTxs C u l) := by
+  induction l generalizing u with
+  | nil => exact Foreign.ok _
+  | cons t rest ih =>
+    simp only [utoApplyTxs]
+    exact Foreign.bind (utoApplyTx_foreign C u t false) fun _ => ih _
+
+theorem utoApplyBlock_foreign (C : Crypto) (u : Utxo) (b : Block) : Foreign (utoApplyBlock C u b) := by
+  unfold utoApplyBlock
+  split
+  · exact Foreign.key _
+  · exact Foreign.bind (utoApplyTx_foreign C u _ true) fun _ => utoApplyTxs_foreign C _ _
+
+/-- `add_block_no_validation` raises `KeyError`s only -/
+theorem addBlockNoValidation_foreign (C : Crypto) (cs : CoinState) (b : Block) : Foreign (addBlockNoValidation C cs b) := by
+  unfold addBlockNoValidation
+  dsimp only
+  repeat' first | exact utoApplyBlock_foreign C _ b | foreign_step
+
+theorem validateTxByItself_foreign (P : Params) (t : CTx) : Foreign (validateTxByItself P t) := by
+  unfold validateTxByItself
+  exact Foreign.bind (Foreign.require _ _) fun _ => Foreign.bind (Foreign.require _ _) fun _ =>
+    Foreign.bind (Foreign.require _ _) fun _ => Foreign.bind (Foreign.requireRange _) fun _ =>
+    Foreign.bind (Foreign.requireRange _) fun _ => Foreign.bind (Foreign.require _ _) fun _ =>
+    Foreign.bind (Foreign.require _ _) fun _ => Foreign.require _ _
+
+theorem validateSignature_foreign (C : Crypto) (i : Input) (o : Output) (t : Tx) : Foreign (validateSignature C i o t) := by
+  unfold validateSignature
+  split
+  · split
+    · exact Foreign.ok _
+    · exact Foreign.verr _
+  · exact Foreign.err (by simp [firstMustBeHello])
+
+theorem validateInputs_foreign (C : Crypto) (u : Utxo) (t : Tx) (l : List Input) : Foreign (validateInputs C u t l) := by
+  induction l with
+  | nil => exact Foreign.ok _
+  | cons i rest ih =>
+    simp only [validateInputs]
+    split
+    · exact Foreign.verr _
+    · exact Foreign.bind (validateSignature_foreign C _ _ _) fun _ => Foreign.bind ih fun _ => Foreign.pure _
+
+theorem validateTxInState_foreign (C : Crypto) (u : Utxo) (t : CTx) : Foreign (validateTxInState C u t) := by
+  unfold validateTxInState
+  exact Foreign.bind (validateInputs_foreign C u _ _) fun _ => Foreign.require _ _
+
+theorem validateTxAtHead_foreign (C : Crypto) (cs : CoinState) (t : CTx) : Foreign (validateTxAtHead C cs t) := by
+  unfold validateTxAtHead
+  split
+  · exact Foreign.key _
+  · exact validateTxInState_foreign C _ _
+
+theorem addTxToPool_foreign (C : Crypto) (P : Params) (m : ChainMgr) (t : CTx) : Foreign (addTxToPool C P m t) := by
+  unfold addTxToPool
+  have hr : Foreign (do
+      validateTxByItself P t
+      validateTxAtHead C m.coinstate t
+      Model.require (decide (allRefs (m.pool ++ [t])).Nodup) "Duplicate output_reference." : Except Err Unit) :=
+    Foreign.bind (validateTxByItself_foreign P t) fun _ => Foreign.bind (validateTxAtHead_foreign C _ t) fun _ =>
+      Foreign.require _ _
+  simp only
+  split
+  · exact Foreign.ok _
+  · exact Foreign.ok _
+  · rename_i e _ he; exact Foreign.err (hr e he)
+
+/-- `handle_get_blocks_message_received` raises `KeyError`s only -/
+theorem inventoryReply_foreign (C : Crypto) (P : Params) (cs : CoinState) (loc : List Bytes) :
+    Foreign (inventoryReply C P cs loc) := by
+  unfold inventoryReply
+  split
+  · split
+    · exact Foreign.ok _
+    · exact Foreign.ok _
+    · apply Foreign.mapM
+      intro h
+      split
+      · exact Foreign.ok _
+      · exact Foreign.key _
+  · exact Foreign.key _
+
+theorem handleTxReceived_foreign (C : Crypto) (P : Params) (n : Node) (t : CTx) (e : Err)
+    (h : (handleTxReceived C P n t).2 = some e) : e ≠ firstMustBeHello := by
+  unfold handleTxReceived at h
+  split at h
+  · cases h
+  · split at h
+    · next e' he' => cases h; exact addTxToPool_foreign C P n.mgr t e he'
+    · cases h
+    · cases h
+
+theorem handleBlockReceived_foreign (C : Crypto) (P : Params) (n : Node) (c r : Nat) (b : Block) (now : Int) (e : Err)
+    (h : (handleBlockReceived C P n c r b now).2 = some e) : e ≠ firstMustBeHello := by
+  unfold handleBlockReceived at h
+  simp only at h
+  cases hadd : addBlockNoValidation C n.mgr.coinstate b with
+  | error e' =>
+    simp only [hadd] at h
+    repeat' split at h
+    all_goals first | (cases h; done) | (cases h; exact addBlockNoValidation_foreign C _ b _ hadd)
+  | ok changed =>
+    simp only [hadd] at h
+    repeat' split at h
+    all_goals first | (cases h; done) | (cases h; simp [firstMustBeHello])
+
+/-- the only place where the model raises the dispatcher's exception is the dispatcher: whatever the node, the connection and
+the message, `handleMessage` returns that exception **iff** the connection exists, has not greeted, and the message is not a
+greeting -/
+theorem model_raises_first_must_be_hello_iff (C : Crypto) (P : Params) (n : Node) (c : Nat) (i r : Nat) (m : InMsg)
+    (now : Int) :
+    (handleMessage C P n c i r m now).2 = some (.other "First message must be Hello") ↔
+      ∃ p, n.peers[c]? = some p ∧ kindOf m ≠ 0 ∧ p.helloReceived = false := by
+  constructor
+  · intro h
+    cases hp : n.peers[c]? with
+    | none => simp [handleMessage, hp] at h
+    | some p =>
+      refine ⟨p, rfl, ?_⟩
+      cases hr : p.helloReceived with
+      | false =>
+        cases m with
+        | hello nonce port => simp [handleMessage, hp] at h; split at h <;> cases h
+        | _ => exact ⟨by simp [kindOf], rfl⟩
+      | true =>
+        exfalso
+        cases m with
+        | hello nonce port => simp [handleMessage, hp] at h; split at h <;> cases h
+        | getBlocks loc =>
+          simp only [handleMessage, hp, hr, Bool.not_true, Bool.false_eq_true, ↓reduceIte] at h
+          cases hi : inventoryReply C P n.mgr.coinstate loc with
+          | ok ids => simp [hi] at h
+          | error e =>
+            simp [hi] at h
+            exact inventoryReply_foreign C P _ loc e hi h
+        | inventory ids =>
+          simp only [handleMessage, hp, hr, Bool.not_true, Bool.false_eq_true, ↓reduceIte] at h
+          repeat' split at h
+          all_goals simp at h
+        | getData ty id =>
+          simp only [handleMessage, hp, hr, Bool.not_true, Bool.false_eq_true, ↓reduceIte] at h
+          repeat' split at h
+          all_goals simp at h
+        | dataBlock b =>
+          simp only [handleMessage, hp, hr, Bool.not_true, Bool.false_eq_true, ↓reduceIte] at h
+          exact handleBlockReceived_foreign C P n c r b now _ h rfl
+        | dataTx t =>
+          simp only [handleMessage, hp, hr, Bool.not_true, Bool.false_eq_true, ↓reduceIte] at h
+          exact handleTxReceived_foreign C P n t _ h rfl
+        | dataHeader => simp [handleMessage, hp, hr] at h
+        | getPeers => simp [handleMessage, hp, hr] at h
+        | peers => simp [handleMessage, hp, hr] at h
+  · rintro ⟨p, hp, hk, hr⟩
+    cases m <;> first | exact absurd rfl hk | simp [handleMessage, hp, hr]
+
+/-- the translated dispatcher raises exactly when the message is not a greeting and none was received before -/
+theorem dispatch_raises_iff (m : InMsg) (helloReceived : Bool) :
+    (Gen.dispatch_effects (kindOf m) helloReceived).2 = true ↔ (kindOf m ≠ 0 ∧ helloReceived = false) := by
+  rw [dispatch_routes]
+  cases m <;> cases helloReceived <;> simp [kindOf]
+
+/-- the model's `handleMessage` and the translated dispatcher agree on when "First message must be Hello" is raised, in both
+directions: for a connection `c` of the node (`hp`), the translated `handle_message_received` raises (second component of
+`dispatch_effects`) **if and only if** the model returns the node unchanged together with that exception.
+
+Left to right: the model refuses and nothing changes. Right to left: the model never produces this result in any other way —
+a greeting never raises, and no handler (`get_blocks`, `inventory`, `get_data`, `data`, `get_peers`, `peers`) lets an exception
+with this message escape (`model_raises_first_must_be_hello_iff`; the handlers raise `KeyError`s, validation / range errors and
+`NotImplementedError`s only). So on a greeted connection, or for a greeting, the model's result is never this pair. -/
 theorem model_dispatch_is_translated (C : Crypto) (P : Params) (n : Node) (c : Nat) (p : PeerSt) (i r : Nat) (m : InMsg)
     (now : Int) (hp : n.peers[c]? = some p) :
-    (Gen.dispatch_effects (kindOf m) p.helloReceived).2 = true →
-      handleMessage C P n c i r m now = (n, some (.other "First message must be Hello")) := by
-  intro h
-  rw [dispatch_routes] at h
-  cases m <;> cases hr : p.helloReceived <;> simp [kindOf, hr] at h <;>
-    simp [handleMessage, hp, hr]
+    ((Gen.dispatch_effects (kindOf m) p.helloReceived).2 = true ↔
+      handleMessage C P n c i r m now = (n, some (.other "First message must be Hello"))) := by
+  rw [dispatch_raises_iff]
+  constructor
+  · rintro ⟨hk, hr⟩
+    cases m <;> first | exact absurd rfl hk | simp [handleMessage, hp, hr]
+  · intro h
+    have h2 : (handleMessage C P n c i r m now).2 = some (.other "First message must be Hello") := by rw [h]
+    obtain ⟨p', hp', hk, hr⟩ := (model_raises_first_must_be_hello_iff C P n c i r m now).1 h2
+    rw [hp] at hp'
+    cases hp'
+    exact ⟨hk, hr⟩
+
+/-- when the translated dispatcher does not raise, an exception escaping the model is the one of the handler the message
+was routed to, never the dispatcher's -/
+theorem model_dispatch_not_raised (C : Crypto) (P : Params) (n : Node) (c : Nat) (p : PeerSt) (i r : Nat) (m : InMsg)
+    (now : Int) (hp : n.peers[c]? = some p) (h : (Gen.dispatch_effects (kindOf m) p.helloReceived).2 = false) :
+    (handleMessage C P n c i r m now).2 ≠ some (.other "First message must be Hello") := by
+  intro h2
+  obtain ⟨p', hp', hk, hr⟩ := (model_raises_first_must_be_hello_iff C P n c i r m now).1 h2
+  rw [hp] at hp'
+  cases hp'
+  rw [(dispatch_raises_iff m p.helloReceived).2 ⟨hk, hr⟩] at h
+  cases h
+
+/-- and then (a greeted connection) the model's result is the result of the handler the message was routed to: for the two
+handlers that live outside `handleMessage` -/
+theorem model_dispatch_routes_data (C : Crypto) (P : Params) (n : Node) (c : Nat) (p : PeerSt) (i r : Nat) (now : Int)
+    (hp : n.peers[c]? = some p) (hg : p.helloReceived = true) :
+    (∀ b, handleMessage C P n c i r (.dataBlock b) now = handleBlockReceived C P n c r b now) ∧
+    (∀ t, handleMessage C P n c i r (.dataTx t) now = handleTxReceived C P n t) := by
+  refine ⟨fun b => ?_, fun t => ?_⟩ <;> simp [handleMessage, hp, hg]
 
 /-- payload dispatch: a block, a transaction, anything else raises -/
 theorem data_dispatch_routes :
